@@ -28,7 +28,7 @@ type QueryLog struct {
 	Transport string `json:"transport"` // udp tcp tls http https h3 quic
 	Conn      int64  `json:"conn"`
 	TRecv     int64  `json:"t_recv"` // clock.Now() when the query was received
-	TSend     int64  `json:"t_send"` // when the reply was handed to the socket (0 = none)
+	TSend     int64  `json:"t_send"` // taken just before the reply is handed to the socket: a lower bound of the send time (0 = none)
 	WireID    uint16 `json:"wire_id"`
 	Name      string `json:"name"` // as received
 	Qtype     uint16 `json:"qtype"`
@@ -224,11 +224,12 @@ func (s *Server) ListenUDP(addr string) error {
 				case "silent", "close", "rst", "http":
 					return
 				case "half":
+					s.sent(a)
 					pc.WriteTo(a.reply[:len(a.reply)/2], from)
 				default:
+					s.sent(a)
 					pc.WriteTo(a.reply, from)
 				}
-				s.sent(a)
 			}()
 		}
 	}()
@@ -333,17 +334,16 @@ func (s *Server) serveStream(transport string, raw net.Conn, cfg *tls.Config) {
 			binary.BigEndian.PutUint16(frame, uint16(len(a.reply)))
 			copy(frame[2:], a.reply)
 			wm.Lock()
+			s.sent(a) // time stamp taken before the write: a lower bound of the real send time
 			if a.kind == "half" {
 				c.Write(frame[:2+len(a.reply)/2])
 				wm.Unlock()
-				s.sent(a)
 				time.Sleep(50 * time.Millisecond)
 				c.Close()
 				return
 			}
 			c.Write(frame)
 			wm.Unlock()
-			s.sent(a)
 		}()
 	}
 }
@@ -389,22 +389,22 @@ func (s *Server) httpHandler(transport string) http.Handler {
 		case "close", "rst":
 			panic(http.ErrAbortHandler)
 		case "http":
+			s.sent(a)
 			w.WriteHeader(a.http)
 			w.Write([]byte("scripted status"))
-			s.sent(a)
 			return
 		case "half":
 			w.Header().Set("Content-Type", "application/dns-message")
 			w.Header().Set("Content-Length", fmt.Sprint(len(a.reply)))
+			s.sent(a)
 			w.WriteHeader(200)
 			w.Write(a.reply[:len(a.reply)/2])
-			s.sent(a)
 			panic(http.ErrAbortHandler)
 		}
 		w.Header().Set("Content-Type", "application/dns-message")
+		s.sent(a)
 		w.WriteHeader(200)
 		w.Write(a.reply)
-		s.sent(a)
 	})
 }
 
@@ -518,13 +518,12 @@ func (s *Server) serveQUICStream(id int64, c quic.Connection, st quic.Stream) {
 	frame := make([]byte, 2+len(a.reply))
 	binary.BigEndian.PutUint16(frame, uint16(len(a.reply)))
 	copy(frame[2:], a.reply)
+	s.sent(a)
 	if a.kind == "half" {
 		st.Write(frame[:2+len(a.reply)/2])
-		s.sent(a)
 		st.Close()
 		return
 	}
 	st.Write(frame)
-	s.sent(a)
 	st.Close()
 }
